@@ -204,8 +204,10 @@ def c04_after_history(E, k=1):
             m.__exit__(None, None, None)
         except Exception:
             return      # C03's to report
-    if getattr(S, "asym_ok", None) or getattr(S, "undocumented", None) or any(l[2] for l in S.log):
-        return          # objectives outside c*(forward-reverse) have no oracle here; raising edits are C01's subject
+    if getattr(S, "asym_ok", None) or getattr(S, "undocumented", None) or any(l[2] and l[0].startswith("add_reactions") for l in S.log):
+        return          # objectives outside c*(forward-reverse) have no oracle here; undocumented exceptions and the listed
+                        # half-added-reaction finding are C01's subject.  An edit that raised a documented exception stays in:
+                        # whatever it left behind, optimize() must still answer for the model as its objects now describe it
     obj = {r.id: c for r, c in linear_reaction_coefficients(m).items()}
     direction = m.objective_direction
     E.note(ops=[l[0] for l in S.log], objective=sorted(obj), direction=direction)
